@@ -169,6 +169,20 @@ inductive HRes where
   | ok (st : St) (s : Sess)
   | fail (status : Status) (st : St) (s : Sess)
 
+def HRes.st : HRes → St
+  | .ok st _ => st
+  | .fail _ st _ => st
+
+def HRes.sess : HRes → Sess
+  | .ok _ s => s
+  | .fail _ _ s => s
+
+/-- the id a cookie names, if any -/
+def Cookie.presented : Cookie → Option Id
+  | .none => Option.none
+  | .id c => some c
+  | .escaping c => some c
+
 def hop (cfg : Cfg) (st : St) (s : Sess) : HOp → HRes
   | .read =>
     match ensureLoaded st s with
